@@ -50,12 +50,16 @@ OPB(mul_2exp) OPB(tdiv_q_2exp)
 #define OP4(fn) static int op_##fn(int argc, tok_t *a, out_t *o) { return run(argc, a, o, 0, mpz_##fn); }
 #define OP3(fn) static int op_##fn(int argc, tok_t *a, out_t *o) { return run(argc, a, o, mpz_##fn, 0); }
 OP4(tdiv_qr) OP4(fdiv_qr) OP4(cdiv_qr)
-OP3(tdiv_q) OP3(tdiv_r) OP3(fdiv_q) OP3(fdiv_r) OP3(cdiv_q) OP3(cdiv_r) OP3(mod) OP3(divexact)
+OP3(tdiv_q) OP3(tdiv_r) OP3(fdiv_q) OP3(fdiv_r) OP3(cdiv_q) OP3(cdiv_r) OP3(mod) OP3(divexact) OP3(and) OP3(ior) OP3(xor)
+typedef void (*f2_t)(mpz_ptr, mpz_srcptr);
+static void com3(mpz_ptr w, mpz_srcptr u, mpz_srcptr unused) { (void)unused; mpz_com(w, u); }
+static int op_com(int argc, tok_t *a, out_t *o) { return run(argc, a, o, com3, 0); }
 
 const opdef_t ops_alias[] = {
   {"alias_tdiv_qr", op_tdiv_qr}, {"alias_fdiv_qr", op_fdiv_qr}, {"alias_cdiv_qr", op_cdiv_qr},
   {"alias_tdiv_q", op_tdiv_q}, {"alias_tdiv_r", op_tdiv_r}, {"alias_fdiv_q", op_fdiv_q}, {"alias_fdiv_r", op_fdiv_r},
   {"alias_cdiv_q", op_cdiv_q}, {"alias_cdiv_r", op_cdiv_r}, {"alias_mod", op_mod},
+  {"alias_and", op_and}, {"alias_ior", op_ior}, {"alias_xor", op_xor}, {"alias_com", op_com},   /* alias_com w u _ _ … */
   {"alias_mul_2exp", op_mul_2exp}, {"alias_tdiv_q_2exp", op_tdiv_q_2exp},
   {"alias_divexact", op_divexact},      /* the generator keeps to the documented domain: den != 0 and den | num */
   {0, 0}
